@@ -573,6 +573,26 @@ func (r *run) protoPKS() *proto {
 			pr.KeySwitch(r.ct, *s.(*multiparty.PublicKeySwitchShare), out)
 			return r.judge(out, r.idealO, false), nil
 		},
+		// h0 + h1 * s_out - c1 * s_i = fresh public-key encryption noise + the smudging term
+		smudge: func(i int, s wobj) (int, int, bool) {
+			sh := s.(*multiparty.PublicKeySwitchShare)
+			l := sh.Value[0].Level()
+			rq := p.RingQ().AtLevel(l)
+			v := rq.NewPoly()
+			h0, h1 := rq.NewPoly(), rq.NewPoly()
+			h0.CopyLvl(l, sh.Value[0])
+			h1.CopyLvl(l, sh.Value[1])
+			if !r.ct.IsNTT {
+				rq.NTT(h0, h0)
+				rq.NTT(h1, h1)
+			}
+			rq.MulCoeffsMontgomery(h1, r.idealO.Value.Q, v)
+			rq.Add(v, h0, v)
+			e := rq.NewPoly()
+			rq.Sub(v, r.c1Delta(r.ct.Value[1], r.ct.IsNTT, r.sks[i], nil, l), e)
+			vb, mb := errStats(rq, e, true)
+			return vb, mb, true
+		},
 	}
 }
 
